@@ -101,3 +101,8 @@ def run(tier):
     v.assumptions = ["type rules: only operands whose type is statically known (literals, variables at their declared type); borderline mixes such as `1 and null` are not generated",
                      "keywords used as names are not generated (the printer cannot write them as identifiers); built-in names are"]
     return v.finish()
+
+
+def replay(path):
+    import replaytool
+    return replaytool.replay("C09", path)
